@@ -64,6 +64,11 @@ type PktEp struct {
 // PktRec is one inbound packet on the shared wire.
 type PktRec struct {
 	ID     int
+	Ether  uint16 // ethertype override for the capture filter (0: by IP version)
+	// OnlyEp > 0 delivers the packet to endpoint OnlyEp-1 only. Used for the synthetic filter-probe
+	// frames of C12, whose port bytes are derived arithmetically from kernel-chosen ports: seen by
+	// other endpoints their verdict would depend on how the kernel happened to number the ports.
+	OnlyEp int
 	Bytes  []byte
 	At     time.Duration
 	Origin PktOrigin
@@ -278,6 +283,9 @@ func (ep *Endpoint) perform(w *World, o *op, now time.Duration) {
 			ep.queue = ep.queue[:0]
 		}
 		ep.Filters = append(ep.Filters, rec)
+		if err == nil && w.Sc.Knobs.FrameNoise > 0 {
+			w.frameNoise(ep, o.spec, now)
+		}
 		w.Log.add(now, ep.Actor, "filter", strconv.Itoa(int(o.spec.FilterType)))
 		w.release(o, opResult{err: err})
 	case opDeadline:
@@ -443,7 +451,7 @@ func (w *World) deliver(id int, at time.Duration) {
 		p.Ep = append(p.Ep, PktEp{})
 	}
 	for _, ep := range w.Eps {
-		if ep.SrcClosed > 0 {
+		if ep.SrcClosed > 0 || (p.OnlyEp > 0 && p.OnlyEp-1 != ep.Idx) {
 			continue
 		}
 		pe := &p.Ep[ep.Idx]
@@ -452,7 +460,7 @@ func (w *World) deliver(id int, at time.Duration) {
 		pe.Accepted = true
 		if ep.vm != nil {
 			if frame == nil {
-				frame = codec.EthernetFrame(p.Bytes, 0)
+				frame = codec.EthernetFrame(p.Bytes, p.Ether)
 			}
 			n, err := ep.vm.Run(frame)
 			if err != nil {
